@@ -653,8 +653,14 @@ func runC04(c *Ctx) error {
 	if c.Thorough {
 		nStress = 3
 	}
-	for i := 0; i < nStress; i++ {
-		p, args := stressProgram(rng, fmt.Sprintf("st%d_", i), c.Thorough && i == 0)
+	// exactly at the limit: pools of 254 … 258 constants (the last operand that fits an 8-bit encoding is 255)
+	boundary := []int{254, 255, 256, 257}
+	for i := 0; i < nStress+len(boundary); i++ {
+		arms := 0
+		if i >= nStress {
+			arms = boundary[i-nStress]
+		}
+		p, args := stressProgram(rng, fmt.Sprintf("st%d_", i), c.Thorough && i == 0, arms)
 		qc, err := qBuild(1000000+i, p, rng)
 		if err != nil {
 			return fmt.Errorf("stress program rejected by go/types: %v", err)
